@@ -56,12 +56,18 @@ def main(argv=None):
     c.add_argument("--tier", default=os.environ.get("VERIF_TIER", "quick"), choices=["quick", "thorough"])
     c.add_argument("--repo-src", default=None)
     c.add_argument("--update-ledger", action="store_true")
+    st = sub.add_parser("selftest")
+    st.add_argument("pids", nargs="*")
     r = sub.add_parser("replay")
     r.add_argument("path")
     args = ap.parse_args(argv)
     if args.cmd == "check":
         seed = int(os.environ.get("VERIF_SEED", "0") or 0)
         return run_check(args.pid, args.tier, seed, args.repo_src, args.update_ledger)
+    if args.cmd == "selftest":
+        from . import selftest
+
+        return selftest.main(args.pids)
     if args.cmd == "replay":
         from . import replay
 
